@@ -114,8 +114,8 @@ func (b c20bounds) args() []int {
 	return nil
 }
 
-var c20ArgVals = []types.MalType{nil, 5, "s", types.List{Val: []types.MalType{1}}, types.Vector{Val: []types.MalType{2}}}
-var c20ArgNames = []string{"nil", "5", `"s"`, "(1)", "[2]"}
+var c20ArgVals = []types.MalType{nil, 5, "s", types.List{Val: []types.MalType{1}}, types.Vector{Val: []types.MalType{2}}, ErrBoom}
+var c20ArgNames = []string{"nil", "5", `"s"`, "(1)", "[2]", "<go error>"}
 
 type c20config struct {
 	fn     int
@@ -208,7 +208,7 @@ func init() {
 			if c.viaOvr {
 				ep = "call.CallOverrideFN"
 			}
-			return fmt.Sprintf("%s(func(%s), %s) x all argument lists of length 0..%d over {nil 5 \"s\" (1) [2]}", ep, c20Table[c.fn].Desc, c.b, maxLen)
+			return fmt.Sprintf("%s(func(%s), %s) x all argument lists of length 0..%d over {nil 5 \"s\" (1) [2] <go error>}", ep, c20Table[c.fn].Desc, c.b, maxLen)
 		}
 		shape := func(c c20config) string {
 			e := c20Table[c.fn]
@@ -227,7 +227,7 @@ func init() {
 		}
 		contract := &vf.Family{
 			Name:   "signature-x-bounds-x-args",
-			Bounds: fmt.Sprintf("%d generated signatures (ctx or not; 0-2 fixed parameters of types int/string/MalType/List/Vector; variadic none/...MalType/...int; results none/error/(MalType,error)/(int,error)) x declared bounds none/(m)/(m,M) for fixed<=m<=M<=3 x both registration entry points; each called with every argument list of length 0..4 over {nil, int, string, list, vector}; result/err/panic modes on a legal call", len(c20Table)),
+			Bounds: fmt.Sprintf("%d generated signatures (ctx or not; 0-2 fixed parameters of types int/string/MalType/List/Vector/error; variadic none/...MalType/...int/...error; results none/error/(MalType,error)/(int,error)) x declared bounds none/(m)/(m,M) for fixed<=m<=M<=3 x both registration entry points; each called with every argument list of length 0..4 over {nil, int, string, list, vector, Go error}; result/err/panic modes on a legal call", len(c20Table)),
 			N:        func(string) int64 { return int64(len(cfgs)) },
 			Describe: descr,
 			Run: func(i int64, r *vf.Rec) {
